@@ -63,12 +63,11 @@ CONTRACT(expiry)
 static int expiry(int timeout, int64_t deadline)
   REQ_(timeout >= -1)
   REQ_(deadline == -1 || (deadline > ((int64_t) 1 << 31) && deadline - g.now <= 0x7fffffffLL))
-  ASSIGNS(g)
+  ASSIGNS(g.now, g.os_calls)
   ENS("C08/expiry.no_deadline_is_timeout", IMPLIES(deadline == -1, RV == timeout && g.now == OLD(g.now)))
   ENS("C08/expiry.expired_deadline", IMPLIES(deadline != -1 && g.now >= deadline, RV == -2))
   ENS("C08/expiry.min_of_timeout_and_remaining", IMPLIES(deadline != -1 && g.now < deadline, RV == ((timeout == -1 || deadline - g.now < timeout) ? (int) (deadline - g.now) : timeout)))
   ENS("C08/expiry.clock_monotone", g.now >= OLD(g.now))
-  ENS("C05/expiry.ledger_unchanged", g.open == OLD(g.open) && g.lib == OLD(g.lib) && g.nsig == OLD(g.nsig) && g.reaps == OLD(g.reaps) && g.poll_calls == OLD(g.poll_calls) && g.may_block == OLD(g.may_block))
   ;
 
 /* Start-up input (C02, C17): every byte is handed to the kernel in order on the
@@ -80,15 +79,48 @@ static int setup_input(pipe_type *pipe, const uint8_t *data, size_t size)
   REQ("C13/setup_input.size_needs_data", data != NULL || size == 0)
   REQ("C02/setup_input.pipe_is_open_library_pipe", data == NULL || (pipe != NULL && IS_OPEN(*pipe) && IS_LIB(*pipe)))
   REQ_(data == NULL || (gc.in_data == data && gc.in_size == size && g.stream_pos == 0 && g.in_fd == -1))
-  ASSIGNS(data != NULL: *pipe; g)
+  ASSIGNS(data != NULL: *pipe; G_FD, G_ERR, G_WR)
+  ENS("C14/setup_input.error_ghost_sane", G_ERR_SANE)
   ENS("C02/setup_input.no_input_no_effect", IMPLIES(data == NULL, RV == 0 && g.os_calls == OLD(g.os_calls) && FD_LEDGER_UNCHANGED))
   ENS("C02/setup_input.all_bytes_written_in_order", IMPLIES(data != NULL && RV == 0, g.stream_pos == size))
   ENS("C02/setup_input.written_to_stdin_pipe", IMPLIES(data != NULL && g.stream_pos > 0, g.in_fd == OLD(*pipe)))
   ENS("C02/setup_input.stdin_closed_after_input", IMPLIES(data != NULL && RV == 0, *pipe == -1 && g.open == (OLD(g.open) & ~MASK_OF(OLD(*pipe))) && g.lib == (OLD(g.lib) & ~MASK_OF(OLD(*pipe)))))
   ENS("C05/setup_input.failure_leaves_pipe_to_caller", IMPLIES(data != NULL && RV != 0, *pipe == OLD(*pipe) && FD_LEDGER_UNCHANGED))
   ENS("C17/setup_input.never_blocks", g.may_block == OLD(g.may_block))
+  ENS("C04/setup_input.success_has_no_failed_call", IMPLIES(RV == 0, g.faults == OLD(g.faults)))
   ENS("C04/setup_input.zero_or_first_failure", RV <= 0 && IMPLIES(RV < 0, g.faults > OLD(g.faults) && IMPLIES(OLD(g.faults) == 0, RV == -g.first_errno)))
-  ENS("C14/setup_input.nothing_else", FD_FRAME_EXCEPT((data != NULL) ? MASK_OF(OLD(*pipe)) : 0u) && g.child_pid == OLD(g.child_pid) && g.nsig == OLD(g.nsig) && g.reaps == OLD(g.reaps) && g.sigmask == OLD(g.sigmask) && g.now == OLD(g.now))
+  ENS("C14/setup_input.other_descriptors_untouched", FD_FRAME_EXCEPT((data != NULL) ? MASK_OF(OLD(*pipe)) : 0u))
+  ;
+
+/* reproc_start (C04, C05, C06, C10, C12, C13, C14). */
+#define ARGV_NULL (argv == NULL)
+#define ARGV0_OK (argv != NULL && argv[0] != NULL)
+#define START_CALLABLE (process != NULL && P0(status) == ST_NOT_STARTED)
+#define START_VALID OPT_ALLOWED(options, ARGV_NULL, ARGV0_OK)
+#define WANT_PIPE_IN (OPT_EFF_IN(options) == RT_PIPE && options.input.data == NULL)
+#define WANT_PIPE_OUT (OPT_EFF_OUT(options) == RT_PIPE)
+#define WANT_PIPE_ERR (OPT_EFF_ERR(options) == RT_PIPE)
+
+CONTRACT(reproc_start)
+int reproc_start(reproc_t *process, const char *const *argv, reproc_options options)
+  REQ("C14/reproc_start.handle_invariant", process == NULL || INV(process))
+  ASSIGNS(process != NULL: *process; g; environ)
+  ENS("C14/reproc_start.misuse_is_einval", IMPLIES(!START_CALLABLE, RV == -EINVAL && OS_UNTOUCHED && IMPLIES(process != NULL, HANDLE_UNCHANGED)))
+  ENS("C13/reproc_start.invalid_options_rejected_before_any_side_effect", IMPLIES(START_CALLABLE && OPT_REJECT(options, ARGV_NULL, ARGV0_OK), RV == -EINVAL && g.os_calls == OLD(g.os_calls) && g.open == OLD(g.open) && g.lib == OLD(g.lib) && g.child_pid == OLD(g.child_pid) && HANDLE_UNCHANGED))
+  ENS("C14/reproc_start.invariant_kept", IMPLIES(process != NULL && !g.in_child, INV(process)))
+  ENS("C04/reproc_start.failure_leaves_handle_not_started", IMPLIES(START_CALLABLE && RV < 0 && !g.in_child, process->status == ST_NOT_STARTED && process->handle == -1 && PIPES_ALL_INVALID(process) && process->deadline == -1))
+  ENS("C04+C05+C06/reproc_start.failure_leaves_no_child", IMPLIES(START_CALLABLE && RV < 0 && !g.in_child, !g.child_live && (g.child_pid == 0 || g.child_reaped)))
+  ENS("C05/reproc_start.failure_leaves_no_descriptor", IMPLIES(START_CALLABLE && RV < 0 && !g.in_child, g.open == OLD(g.open) && g.lib == OLD(g.lib)))
+  ENS("C04/reproc_start.failure_is_real_cause", IMPLIES(START_CALLABLE && RV < 0 && !g.in_child && START_VALID && OLD(g.faults) == 0, (g.faults > 0 && RV == -g.first_errno) || ((g.child_fate == FATE_FAILED_EARLY || g.child_fate == FATE_FAILED_LATE) && RV == -g.child_fate_errno)))
+  ENS("C04+C06/reproc_start.success_is_running_child_that_executed", IMPLIES(START_CALLABLE && RV > 0, !g.in_child && process->status == ST_IN_PROGRESS && process->handle == g.child_pid && process->handle > 0 && g.child_live && !g.child_reaped && g.child_fate == FATE_EXECED))
+  ENS("C10/reproc_start.parent_gets_a_pipe_end_exactly_for_piped_streams", IMPLIES(START_CALLABLE && RV > 0 && OPT_TYPES_IN_RANGE(options), (process->pipe.in != -1) == WANT_PIPE_IN && (process->pipe.out != -1) == WANT_PIPE_OUT && (process->pipe.err != -1) == WANT_PIPE_ERR && process->pipe.exit != -1))
+  ENS("C02+C05/reproc_start.childs_ends_closed_in_parent", IMPLIES(START_CALLABLE && RV > 0, g.open == (OLD(g.open) | PARENT_MASK(process)) && g.lib == (OLD(g.lib) | PARENT_MASK(process)) && (OLD(g.open) & PARENT_MASK(process)) == 0))
+  ENS("C17/reproc_start.pipe_mode_is_the_option", IMPLIES(START_CALLABLE && RV > 0, process->nonblocking == options.nonblocking))
+  ENS("C15/reproc_start.stop_policy_stored", IMPLIES(START_CALLABLE && RV > 0, STOP_PARSED(process->stop, options.stop)))
+  ENS("C08/reproc_start.deadline_is_now_plus_option", IMPLIES(START_CALLABLE && RV > 0, (options.deadline == 0 || options.deadline == -1) ? process->deadline == -1 : process->deadline == g.now + options.deadline))
+  ENS("C14/reproc_start.fork_mode_child_handle", IMPLIES(START_CALLABLE && RV == 0, g.in_child && options.fork && process->status == ST_IN_CHILD && process->handle == -1 && PIPES_ALL_INVALID(process)))
+  ENS("C12/reproc_start.caller_state_untouched", IMPLIES(!g.in_child, g.sigmask == OLD(g.sigmask) && g.disp_default == OLD(g.disp_default) && g.cwd_id == OLD(g.cwd_id) && environ == OLD(environ)))
+  ENS("C06/reproc_start.sends_no_signal", g.nsig == OLD(g.nsig) && g.kill_calls == OLD(g.kill_calls))
   ;
 
 CONTRACT(reproc_wait)
